@@ -573,6 +573,32 @@ func (e *SpecEnv) call(n *ast.CallExpr) Val {
 				iid := u.D.TypeID(t)
 				u.W.implementsAxioms(u, t, impl, iid)
 				return Val{T: and("(not (= (if.typ "+a.T+") 0))", app(impl, "(if.typ "+a.T+")", fmt.Sprint(iid))), Typ: tBool}
+			case "isConstOf":
+				// isConstOf(x, T, excluded...): x equals one of the constants of named type T
+				// declared in T's package (mechanically extracted), except the excluded ones
+				a := e.expr(n.Args[0])
+				t := u.W.resolveType(e.pkg, n.Args[1])
+				nt, ok := types.Unalias(t).(*types.Named)
+				if !ok || nt.Obj().Pkg() == nil {
+					sfail("isConstOf needs a named type")
+				}
+				excl := map[string]bool{}
+				for _, x := range n.Args[2:] {
+					excl[types.ExprString(x)] = true
+				}
+				var alts []string
+				sc := nt.Obj().Pkg().Scope()
+				for _, name := range sc.Names() {
+					c, ok := sc.Lookup(name).(*types.Const)
+					if !ok || !types.Identical(c.Type(), t) || excl[name] {
+						continue
+					}
+					alts = append(alts, eq(a.T, e.constant(c).T))
+				}
+				if len(alts) == 0 {
+					sfail("isConstOf: no constants of type %s", t)
+				}
+				return Val{T: or(alts...), Typ: tBool}
 			case "unbox":
 				// unbox(x, T): payload of interface x as T
 				a := e.expr(n.Args[0])
